@@ -410,12 +410,16 @@ def gen_model_ops(draw, feat, G=None):
         for p in paths:
             if draw(st.integers(0, 2)) == 0:
                 sp = G.space(tuple(p))
-                tgt_space = G.space(tuple(draw(st.sampled_from(paths))))
-                cs = [n for n in G.cells_names(tgt_space) if rank_of(n) >= 0]
+                mode = draw(st.sampled_from([None, "auto", "absolute"]))
+                # auto/relative targets are the definer's own cells (the case C10 states for static
+                # derivation); other targets are bound absolutely, so that no deriving space ends up
+                # with a reference to a non-existent counterpart
+                tgt_space = sp if mode != "absolute" else G.space(tuple(draw(st.sampled_from(paths))))
+                # only cells *defined* in the target space: derived copies are re-created by base edits
+                cs = [n for n in tgt_space.cells if rank_of(n) >= 0]
                 if cs:
                     cn = draw(st.sampled_from(cs))
-                    emit(["set_ref", p, "o%d" % rank_of(cn), ["o", list(tgt_space.path) + [cn]],
-                          draw(st.sampled_from([None, "auto", "absolute"]))])
+                    emit(["set_ref", p, "o%d" % rank_of(cn), ["o", list(tgt_space.path) + [cn]], mode])
     return ops, G
 
 
@@ -459,3 +463,241 @@ def gen_query(draw, G, sids=None):
             kw = {params[i][0]: args[i] for i in range(npos, len(args))}
             return ["eval", list(sid), n, args[:npos], kw, "()"]
     return ["eval", list(sid), n, args, None, style]
+
+
+# ----------------------------------------------------------------------------
+# history operations (edits of every kind the properties list)
+
+EDIT_KINDS = [
+    "set_value", "set_value", "clear_value", "set_ref", "set_ref", "set_ref", "shadow_ref", "del_ref",
+    "set_mref", "set_mref", "del_mref", "set_cells_formula", "set_cells_formula", "override", "new_cells",
+    "del_cells", "rename_cells", "new_space", "del_space", "rename_space", "add_bases", "remove_bases",
+    "set_formula", "del_formula", "set_cached",
+]
+
+
+def item_sids(G, maxn=2):
+    """idtuples of a few ItemSpaces of parametrised static spaces"""
+    out = []
+    for s in G.all_spaces():
+        if s.formula is not None:
+            n = len(s.formula["params"])
+            for a in range(maxn):
+                out.append(s.path + ((a,) * n,))
+    return out
+
+
+def gen_edit(draw, G, feat, kinds=None):
+    """one edit operation meaningful in state G (or None)"""
+    spaces = G.all_spaces()
+    if not spaces:
+        return None
+    kind = draw(st.sampled_from(kinds or EDIT_KINDS))
+    s = draw(st.sampled_from(spaces))
+    p = list(s.path)
+    cnames = ["c%d" % i for i in range(feat.max_rank + 1)]
+    if kind == "set_value":
+        sids = [t.path for t in spaces] + (item_sids(G) if feat.items else [])
+        sid = draw(st.sampled_from(sids))
+        try:
+            ctx = R.Evaluator(G).ctx_of(sid)
+        except Exception:
+            return None
+        cs = [n for n in G.cells_names(ctx.base) if G.find_cells(ctx.base, n)[1].cached]
+        if not cs:
+            return None
+        n = draw(st.sampled_from(cs))
+        params = G.find_cells(ctx.base, n)[1].params
+        key = [draw(st.integers(0, 2)) for _ in params]
+        return ["set_value", _jsid(sid), n, key, draw(st.integers(20, 99))]
+    if kind == "clear_value":
+        if not G.inputs:
+            return None
+        (sid, n), d = draw(st.sampled_from(sorted(G.inputs.items(), key=repr)))
+        if not d:
+            return ["clear_all", _jsid(sid), n]
+        key = draw(st.sampled_from(sorted(d, key=repr)))
+        return draw(st.sampled_from([["clear_at", _jsid(sid), n, list(key)], ["clear_all", _jsid(sid), n]]))
+    if kind == "set_ref":
+        n = draw(st.sampled_from(REF_NAMES))
+        mode = None
+        return ["set_ref", p, n, ["v", draw(st.integers(10, 99))], mode]
+    if kind == "shadow_ref":
+        # a space-level name equal to a model-level one, or a sub-space name equal to a derived one
+        names = [n for n in G.refs if n[0] == "g"] + [n for n in G.ref_names(s) if n not in s.refs]
+        if not names:
+            return None
+        return ["set_ref", p, draw(st.sampled_from(names)), ["v", draw(st.integers(10, 99))], None]
+    if kind == "del_ref":
+        own = sorted(s.refs)
+        if not own:
+            return None
+        return ["del_ref", p, draw(st.sampled_from(own))]
+    if kind == "set_mref":
+        return ["set_ref", [], draw(st.sampled_from(MREF_NAMES)), ["v", draw(st.integers(10, 99))], None]
+    if kind == "del_mref":
+        own = sorted(n for n in G.refs if n[0] == "g")
+        if not own:
+            return None
+        return ["del_ref", [], draw(st.sampled_from(own))]
+    if kind == "set_cells_formula":
+        own = sorted(s.cells)
+        if not own:
+            return None
+        n = draw(st.sampled_from(own))
+        return ["set_cells_formula", p, n, gen_cells_def(draw, G, s, n, feat, params=s.cells[n].params)]
+    if kind == "override":
+        derived = [n for n in G.cells_names(s) if n not in s.cells]
+        if not derived:
+            return None
+        n = draw(st.sampled_from(derived))
+        old = G.find_cells(s, n)[1]
+        return ["set_cells_formula", p, n, gen_cells_def(draw, G, s, n, feat, params=old.params)]
+    if kind == "new_cells":
+        free = [n for n in cnames if G.find_cells(s, n) is None]
+        if not free:
+            return None
+        return ["new_cells", p, gen_cells_def(draw, G, s, draw(st.sampled_from(free)), feat)]
+    if kind == "del_cells":
+        own = sorted(s.cells)
+        if not own:
+            return None
+        return ["del_cells", p, draw(st.sampled_from(own))]
+    if kind == "rename_cells":
+        own = sorted(s.cells)
+        if not own:
+            return None
+        n = draw(st.sampled_from(own))
+        new = draw(st.sampled_from(cnames))
+        if new == n or G.find_cells(s, new) is not None:
+            return None
+        return ["rename_cells", p, n, new]
+    if kind == "set_cached":
+        own = sorted(s.cells)
+        if not own:
+            return None
+        n = draw(st.sampled_from(own))
+        return ["set_cached", p, n, not s.cells[n].cached]
+    if kind == "new_space":
+        parent = draw(st.sampled_from([None] + spaces))
+        if parent is None:
+            free = [n for n in SPACE_NAMES + ["S4"] if n not in G.spaces]
+            pp = []
+        else:
+            free = [n for n in CHILD_NAMES + ["Ch2"] if n not in parent.children]
+            pp = list(parent.path)
+        if not free:
+            return None
+        bases = None
+        if feat.inherit and draw(st.integers(0, 1)) == 0:
+            cands = [t for t in spaces if parent is None or
+                     (t.path != parent.path[:len(t.path)] and parent.path != t.path[:len(parent.path)])]
+            if cands:
+                bases = [list(draw(st.sampled_from(cands)).path)]
+        return ["new_space", pp, free[0], bases, None]
+    if kind == "del_space":
+        if len(spaces) <= 1:
+            return None
+        return ["del_space", p]
+    if kind == "rename_space":
+        cont = G.spaces if s.parent is None else s.parent.children
+        pool = (SPACE_NAMES + ["S4"]) if s.parent is None else (CHILD_NAMES + ["Ch2", "Gc0", "Gc1"])
+        free = [n for n in pool if n not in cont]
+        if not free:
+            return None
+        return ["rename_space", p, draw(st.sampled_from(free))]
+    if kind == "add_bases":
+        if not feat.inherit:
+            return None
+        cands = []
+        for t in spaces:
+            if t is s or t.path == s.path[:len(t.path)] or s.path == t.path[:len(s.path)]:
+                continue
+            if t.path in [tuple(b) for b in s.bases]:
+                continue
+            try:
+                if s in G.mro(t):
+                    continue
+            except (TypeError, ValueError):
+                continue
+            cands.append(t)
+        if not cands:
+            return None
+        t = draw(st.sampled_from(cands))
+        saved = list(s.bases)
+        s.bases = saved + [t.path]
+        ok = mro_ok(G)
+        s.bases = saved
+        if not ok:
+            return None
+        return ["add_bases", p, [list(t.path)]]
+    if kind == "remove_bases":
+        if not s.bases:
+            return None
+        return ["remove_bases", p, [list(draw(st.sampled_from(s.bases)))]]
+    if kind == "set_formula":
+        if not feat.items:
+            return None
+        return ["set_formula", p, gen_formula_spec(draw, G, s, feat)]
+    if kind == "del_formula":
+        if s.formula is None:
+            return None
+        return ["set_formula", p, None]
+    return None
+
+
+def _jsid(sid):
+    return [list(x) if isinstance(x, tuple) else x for x in sid]
+
+
+def has_dangling(G):
+    """some object-valued reference points at something that no longer exists"""
+    for s in G.all_spaces():
+        for r in s.refs.values():
+            if isinstance(r.value, R.Obj) and G.resolve_obj(r.value.path) is None:
+                return True
+    for v in G.refs.values():
+        if isinstance(v, R.Obj) and G.resolve_obj(v.path) is None:
+            return True
+    return False
+
+
+def obj_ref_paths(G):
+    out = []
+    for s in G.all_spaces():
+        for r in s.refs.values():
+            if isinstance(r.value, R.Obj):
+                out.append(r.value.path)
+    for v in G.refs.values():
+        if isinstance(v, R.Obj):
+            out.append(v.path)
+    return out
+
+
+def kills_ref_target(G, op):
+    """the operation deletes an object some reference points at (the reference would dangle)"""
+    if op[0] == "del_cells":
+        tgt = tuple(op[1]) + (op[2],)
+        return any(p == tgt for p in obj_ref_paths(G))
+    if op[0] == "del_space":
+        tgt = tuple(op[1])
+        return any(p[:len(tgt)] == tgt for p in obj_ref_paths(G))
+    return False
+
+
+def apply_edit_to_picture(G, op, allow_dangling=False):
+    """apply ``op`` to the generator's picture; False (picture unchanged) if it has no meaning
+    there, makes the base relation inconsistent or leaves an object reference dangling"""
+    import copy
+    if not allow_dangling and kills_ref_target(G, op):
+        return False
+    saved = copy.deepcopy(G.__dict__)
+    try:
+        apply_ref(G, op)
+        ok = mro_ok(G) and (allow_dangling or not has_dangling(G))
+    except Exception:
+        ok = False
+    if not ok:
+        G.__dict__.clear()
+        G.__dict__.update(saved)
+    return ok
